@@ -89,8 +89,82 @@ Proof.
                 | exact rhct_model_tiles | exact viot_model_tiles | exact rimt_model_tiles].
 Qed.
 
+(* ------------------------------------------------------------------------------------------------
+   The two variable-body tables outside the walk registry. *)
+From ACPI Require Import Impl.Rqsc Impl.Slit Spec.RqscWalkS Proofs.FixedP Proofs.RqscP Proofs.RqscRefP Proofs.RqscWalkP
+  Proofs.SlitP Proofs.SlitShapeP.
+
+(* RQSC (nested: controllers, and resources inside each controller).  For every constructor argument and every history of
+   add_controller calls the model ACCEPTS, in both build profiles, with no side condition: the two-level walk of the emitted
+   image (Spec/RqscWalkS.v: controllers stepped by their own 16-bit Length from offset 40, resources stepped by their own 16-bit
+   Length from offset 28 of their controller) succeeds -- every inner walk lands exactly on its controller's end and the outer
+   walk exactly on the end of the image --; what it finds is exactly what the caller added (rqsc_expected reads the operations
+   alone): the same controllers in insertion order with their type codes and sizes and, inside each, the same resources in
+   insertion order with their type codes and sizes; ControllerCount (offset 36) is the number of controllers found and every
+   controller's ResourceCount (its offset 26) is the number of resources the inner walk found. *)
+Theorem c03_rqsc_nested_walk :
+  forall md c ops s0 s,
+    rqsc_new c = Some s0 -> rqsc_run md s0 ops = Some s ->
+    exists found exp,
+      rqsc_walk2 (Rqsc.rqsc_image s) = Some found /\
+      rqsc_expected ops = Some exp /\
+      rq_shape found = exp /\
+      ctrls_tile 40 found (length (Rqsc.rqsc_image s)) /\
+      field_at (Rqsc.rqsc_image s) 36 4 = N.of_nat (length found) /\
+      Forall (fun rc => rc_count rc = N.of_nat (length (rc_res rc))) found.
+Proof. exact rqsc_nested_walk. Qed.
+
+(* non-vacuity: an accepted history of three controllers with 3 + 2 + 0 resources (every resource-id form), what the walk
+   returns on its image, and the judgement rejecting a one-byte corruption (ResourceCount 3 -> 4) and a truncation of that image *)
+Example c03_rqsc_nested_walk_nonvacuous :
+  (* rqsc_walk_demo answers Some only when rqsc_new and rqsc_run accepted: (what the walk found, its shape's expectation, image size, count) *)
+  option_map (fun r => (rq_shape (fst (fst (fst r))), snd (fst r), snd r)) (rqsc_walk_demo Checked) =
+    Some ([ (0, 97%nat, [(0, 20%nat); (1, 28%nat); (0, 21%nat)]); (1, 68%nat, [(1, 20%nat); (0, 20%nat)]); (0, 28%nat, []) ], 233%nat, 3) /\
+  rqsc_walk_demo Wrapping = rqsc_walk_demo Checked /\
+  rqsc_nested_judge rqsc_demo_image rqsc_demo_ops = true /\
+  rqsc_nested_judge (upd rqsc_demo_image 66 4) rqsc_demo_ops = false /\
+  rqsc_nested_judge (firstn 232 rqsc_demo_image) rqsc_demo_ops = false.
+Proof. repeat split; vm_compute; reflexivity. Qed.
+
+(* SLIT (no self-describing entries: a count and a square matrix).  For every constructor call the model accepts (n localities)
+   and every accepted sequence of set_distance calls, in both build profiles: the image is 36 + 8 + n^2 bytes, the 8-byte
+   NumberOfLocalities at offset 36 is n, and the body from offset 44 is exactly n rows of n one-byte cells: every cell (i, j)
+   lies inside the image at offset 44 + i*n + j, distinct cells have distinct offsets, and every byte from 44 to the end is a cell. *)
+Theorem c03_slit_shape :
+  forall md o t r n ops s0 s,
+    slit_new (SL [o; t; r; SA n]) = Some s0 -> slit_run md s0 ops = Some s ->
+    N.of_nat (length (slit_image s)) = 36 + 8 + n * n /\
+    field_at (slit_image s) 36 8 = n /\
+    (forall i j, i < n -> j < n -> (44 <= 44 + N.to_nat (i * n + j) < length (slit_image s))%nat) /\
+    (forall i j i' j', i < n -> j < n -> i' < n -> j' < n -> i * n + j = i' * n + j' -> i = i' /\ j = j') /\
+    (forall k, (44 <= k < length (slit_image s))%nat -> exists i j, i < n /\ j < n /\ k = (44 + N.to_nat (i * n + j))%nat).
+Proof. exact slit_shape. Qed.
+
+(* the same on the case vocabulary (observation markers included), as the harness drives it *)
+Theorem c03_slit_shape_history :
+  forall md o t r n ops s0 s,
+    slit_new (SL [o; t; r; SA n]) = Some s0 -> run_steps (slit_step md) s0 ops = Some s ->
+    N.of_nat (length (slit_image s)) = 36 + 8 + n * n /\
+    field_at (slit_image s) 36 8 = n /\
+    (forall i j, i < n -> j < n -> (44 <= 44 + N.to_nat (i * n + j) < length (slit_image s))%nat) /\
+    (forall i j i' j', i < n -> j < n -> i' < n -> j' < n -> i * n + j = i' * n + j' -> i = i' /\ j = j') /\
+    (forall k, (44 <= k < length (slit_image s))%nat -> exists i j, i < n /\ j < n /\ k = (44 + N.to_nat (i * n + j))%nat).
+Proof. exact slit_shape_history. Qed.
+
+(* non-vacuity: 3 localities and three accepted calls give 53 bytes, count 3 and three rows of three cells; 0 localities give the
+   44-byte table; an out-of-range call is refused *)
+Example c03_slit_shape_nonvacuous :
+  slit_shape_demo Checked 3 [(0, 1, 20); (2, 2, 7); (1, 2, 30)] = Some (53%nat, 3, [10; 20; 10;  20; 10; 30;  10; 30; 7]) /\
+  slit_shape_demo Wrapping 3 [(0, 1, 20); (2, 2, 7); (1, 2, 30)] = Some (53%nat, 3, [10; 20; 10;  20; 10; 30;  10; 30; 7]) /\
+  slit_shape_demo Checked 0 [] = Some (44%nat, 0, []) /\
+  slit_shape_demo Checked 3 [(0, 3, 1)] = None.
+Proof. repeat split; vm_compute; reflexivity. Qed.
+
 Print Assumptions c03_walker_tiles.
 Print Assumptions c03_tables.
 Print Assumptions c03_reference_images_tile.
 Print Assumptions c03_model_images_tile.
 Print Assumptions c03_hmat.
+Print Assumptions c03_rqsc_nested_walk.
+Print Assumptions c03_slit_shape.
+Print Assumptions c03_slit_shape_history.
